@@ -36,6 +36,7 @@ func VerifHarness_C20_N5_admission() {
 	outbound := vNondetBool("we-dialed")
 	refused := vNondetBool("key-on-refuse-list")
 	keyFiltered := vNondetBool("key-rejected-by-key-filter")
+	otherIdentity := vNondetBool("announces-another-identity-than-it-authenticated-with")
 	var admitted, inPeers bool
 	var size int
 	if vSymbolic() {
@@ -63,6 +64,11 @@ func VerifHarness_C20_N5_admission() {
 		}
 		conn := &vConnT{}
 		info := &NodeInfo{PubKey: theirs, Moniker: "other"}
+		if otherIdentity {
+			var third crypto.PubKeyEd25519
+			third[0] = 3
+			info.PubKey = third
+		}
 		vSetStub("p2p.MakeSecretConnection", &SecretConnection{conn: conn, remPubKey: theirs}, nil)
 		vSetStub("p2p.peerHandshake", info, nil)
 		vSetStub("p2p.exchangeData", nil)
@@ -82,6 +88,11 @@ func VerifHarness_C20_N5_admission() {
 		}
 		me, other := mk(0), mk(1)
 		theirs := other.NodeInfo().PubKey
+		if otherIdentity {
+			ni := *other.NodeInfo()
+			ni.PubKey = crypto.GenPrivKeyEd25519().PubKey()
+			other.SetNodeInfo(&ni)
+		}
 		if refused {
 			me.SetRefuseListFilter(func(pk crypto.PubKey) error {
 				if pk.Equals(theirs) {
@@ -113,7 +124,7 @@ func VerifHarness_C20_N5_admission() {
 		admitted, inPeers, size = myErr == nil, me.Peers().Has(theirs.KeyString()), me.Peers().Size()
 	}
 	vReach("connection-attempt-finished")
-	if refused || keyFiltered {
+	if refused || keyFiltered || otherIdentity {
 		vAssert(!admitted && !inPeers && size == 0, "N5-refused-or-filtered-key-is-never-admitted-inbound-or-outbound")
 	} else {
 		vReach("admitted")
